@@ -30,6 +30,7 @@ Inductive obs :=
 Inductive item :=
 | ICmd (c : option command) (o : obs)
 | IHttp (q : hreq) (status : N) (body : bytes)
+| IPub                           (* traffic published on a feed/stream topic: no effect on the tables expected *)
 | IHttpOther (status : N).      (* a request gorilla/mux did not route to a rule handler (404, 405, /api,
                                    /healthcheck): no effect on the tables expected *)
 
@@ -73,6 +74,7 @@ Section Run.
     | IHttp q status body =>
         let '(s', (st', b')) := hstep s q in
         (s', (st' =? status) && (if st' =? 200 then beqb b' body else true))
+    | IPub => (s, true)
     | IHttpOther status => (s, true)   (* only the tables are compared: they must not have changed *)
     end.
 
